@@ -77,7 +77,14 @@ fn addr_id(s: &str) -> u128 {
         panic!("harness: unknown address {}", s)
     }
 }
+// "lookalike d t": from the next init on, bank denom d is spelled exactly like the address of contract t
+static LOOK_D: std::sync::atomic::AtomicU64 = std::sync::atomic::AtomicU64::new(u64::MAX);
+static LOOK_T: std::sync::atomic::AtomicU64 = std::sync::atomic::AtomicU64::new(0);
 fn denom_s(d: u128) -> String {
+    use std::sync::atomic::Ordering::SeqCst;
+    if d as u64 == LOOK_D.load(SeqCst) {
+        return addr_s(LOOK_T.load(SeqCst) as u128);
+    }
     format!("denom{}", d)
 }
 
@@ -90,6 +97,9 @@ impl<'a> Cur<'a> {
         let s = self.t.get(self.i).copied().expect("harness: missing token");
         self.i += 1;
         s
+    }
+    fn more(&self) -> bool {
+        self.i < self.t.len()
     }
     fn num(&mut self) -> u128 {
         self.next().parse::<u128>().expect("harness: bad number")
@@ -713,13 +723,20 @@ fn exec(w: &mut World, c: &mut Cur) -> Result<AppResponse, String> {
         "fac_update_config" => {
             let caller = c.addr();
             let owner = c.opt_addr();
+            // optional shape: bit 0 names the token code id, bit 1 the pair code id, both at their
+            // current values, so the modelled part of the factory's state moves exactly as without them
+            let shape = if c.more() { c.num() } else { 0 };
+            let cfg: haloswap::factory::ConfigResponse = app
+                .wrap()
+                .query_wasm_smart(addr_s(0), &FactoryQueryMsg::Config {})
+                .expect("harness: factory config query");
             e(app.execute_contract(
                 Addr::unchecked(caller),
                 Addr::unchecked(addr_s(0)),
                 &FactoryExecuteMsg::UpdateConfig {
                     owner,
-                    token_code_id: None,
-                    pair_code_id: None,
+                    token_code_id: if shape & 1 != 0 { Some(cfg.token_code_id) } else { None },
+                    pair_code_id: if shape & 2 != 0 { Some(cfg.pair_code_id) } else { None },
                 },
                 &[],
             ))
@@ -982,6 +999,12 @@ pub fn serve() {
         let toks: Vec<&str> = line.split_whitespace().collect();
         let mut c = Cur { t: toks, i: 0 };
         let resp = match c.next() {
+            "lookalike" => {
+                use std::sync::atomic::Ordering::SeqCst;
+                LOOK_D.store(c.num() as u64, SeqCst);
+                LOOK_T.store(c.num() as u64, SeqCst);
+                "ok".to_string()
+            }
             "init" => {
                 let w = init(&mut c);
                 let s = format!("ok {}", join(&w.prev));
